@@ -245,23 +245,27 @@ class Recorder:
         out = {"ok": 1, "levels": [], "lines": []}
         lines = summary.split("\n")
         try:
-            out["mc"] = int(lines[0].split(": ")[1])
-            out["bestfit"] = lines[1].split(": ")[1]
-            out["tev"] = int(lines[3].split(": ")[1])
-            out["ndemes"] = int(lines[4].split(": ")[1])
-            i = 5
-            while i < len(lines):
-                ln = lines[i]
+            cur = out            # header first, then one section per "Level k."
+            for ln in lines:
                 if ln.startswith("Level "):
-                    if lines[i + 1].startswith("No demes available"):
-                        out["levels"].append({"empty": 1, "nev": 0, "nd": 0, "bestfit": ""})
-                        i += 2
-                    else:
-                        out["levels"].append({"empty": 0, "bestfit": lines[i + 1].split(": ")[1],
-                                              "nev": int(lines[i + 3].split(": ")[1]), "nd": int(lines[i + 4].split(": ")[1])})
-                        i += 5
-                else:
-                    i += 1
+                    cur = {"empty": 0, "nev": -1, "nd": -1, "bestfit": ""}
+                    out["levels"].append(cur)
+                elif ln.startswith("No demes available"):
+                    cur.update(empty=1, nev=0, nd=0)
+                elif ln.startswith("Metaepoch count: "):
+                    out["mc"] = int(ln.split(": ")[1])
+                elif ln.startswith("Best fitness: "):
+                    cur["bestfit"] = ln.split(": ")[1]
+                elif ln.startswith("Number of evaluations: "):
+                    cur["tev" if cur is out else "nev"] = int(ln.split(": ")[1])
+                elif ln.startswith("Number of demes: "):
+                    cur["ndemes" if cur is out else "nd"] = int(ln.split(": ")[1])
+                elif self._DEME_LINE.match(ln):
+                    break            # the tree part of the summary follows
+            for k in ("mc", "tev", "ndemes", "bestfit"):
+                if k not in out:
+                    out["ok"] = 0
+                    out.setdefault(k, -1 if k != "bestfit" else "")
             for ln in treetxt.split("\n"):
                 if not ln.strip():
                     continue
